@@ -265,6 +265,28 @@ def run(tier, t0):
                     regreads.append(b)
         if not regreads:
             res.violation('C06.2', 'C06.2|register-token', ev_, ev_.line, 'eval_cfi_expr has no token.strip_prefix(`$`) for `$register` values')
+    # C06.10 one register, one rule - also across alias spellings.  The rule map is keyed by the label text, and the
+    # real walker canonicalises names only when a register is set or cleared (x29 = fp, r11 = fp, ...): two records that
+    # spell one register differently stay two rules, applied in label order, so the later record need not win.  The map
+    # has to be keyed by a name the FrameWalker supplies (or the rules applied in definition order).
+    res.rule('C06.10', 0, floor=1, note='rule-map keys are canonical register names (aliases of one register do not make two rules)')
+    fw = [i for i in c.impls if i.get('trait', '').endswith('FrameWalker')]
+    methods = set()
+    for f in c.fns:
+        m = re.match(r'^breakpad_symbols::FrameWalker::(\w+)$', f.path)
+        if m:
+            methods.add(m.group(1))
+    for g in c.fns:
+        if g.path == W + 'walk_with_stack_cfi' or g.path == W + 'parse_cfi_exprs':
+            for b, t in g.calls():
+                d = g.callee_decl(t)
+                m = re.search(r'FrameWalker::(\w+)$', d)
+                if m:
+                    methods.add(m.group(1))
+    res.rule('C06.10', 1)
+    canon = [m for m in methods if re.search(r'canonical|memoize|register_name|normal', m)]
+    if not canon:
+        res.violation('C06.10', 'C06.10|alias-keys', c.fn(W + 'walk_with_stack_cfi'), None, 'the STACK CFI rule map is keyed by the label as spelled and the FrameWalker interface offers no canonical register name: `x29: ..` in one record and `fp: ..` in a later one are two rules evaluated in label order, so the later record does not override and a `.undef` under one spelling is undone by the rule under the other')
     # C06.9 one register, one key: `$rax:` and `rax:` name the same rule
     res.rule('C06.9', 0, floor=1, note='the map key of a register label is the label without one leading `$`, whichever spelling the record uses')
     pf = [f for f in c.fns if f.path == W + 'parse_cfi_exprs']
